@@ -167,26 +167,49 @@ def sany(path):
 
 
 # ---- DOT state graph --------------------------------------------------------------------------
-def load_dot(path):
-    """-> (nodes: id -> state dict, edges: id -> [(action, id)], init ids)."""
+_NODE_RE = re.compile(r'^(-?\d+) \[label="((?:[^"\\]|\\.)*)"(,style = filled)?')
+_EDGE_RE = re.compile(r'^(-?\d+) -> (-?\d+) \[label="((?:[^"\\]|\\.)*)"')
+
+
+def _parse_nodes(lines):
+    out = []
+    for line in lines:
+        m = _NODE_RE.match(line)
+        if m:
+            lab = m.group(2).replace('\\n', '\n').replace('\\"', '"').replace('\\\\', '\\')
+            out.append((m.group(1), tlaval.parse_state(lab), bool(m.group(3))))
+    return out
+
+
+def load_dot(path, procs=None):
+    """-> (nodes: id -> state dict, edges: id -> [(action label, id)], init ids).  Node labels are parsed in parallel."""
     import collections
+    import multiprocessing
     nodes, edges, inits = {}, collections.defaultdict(list), []
-    node_re = re.compile(r'^(-?\d+) \[label="((?:[^"\\]|\\.)*)"(,style = filled)?')
-    edge_re = re.compile(r'^(-?\d+) -> (-?\d+) \[label="((?:[^"\\]|\\.)*)"')
+    node_lines = []
     with open(path) as fh:
         for line in fh:
-            line = line.rstrip('\n')
-            m = edge_re.match(line)
-            if m:
-                lab = m.group(3).replace('\\"', '"').replace('\\\\', '\\')
-                edges[m.group(1)].append((lab, m.group(2)))
-                continue
-            m = node_re.match(line)
-            if m:
-                lab = m.group(2).replace('\\n', '\n').replace('\\"', '"').replace('\\\\', '\\')
-                nodes[m.group(1)] = tlaval.parse_state(lab)
-                if m.group(3):
-                    inits.append(m.group(1))
+            if ' -> ' in line[:48]:
+                m = _EDGE_RE.match(line)
+                if m:
+                    lab = m.group(3).replace('\\"', '"').replace('\\\\', '\\')
+                    edges[m.group(1)].append((lab, m.group(2)))
+                    continue
+            if ' [label="' in line[:40]:
+                node_lines.append(line.rstrip('\n'))
+    procs = procs or min(16, os.cpu_count() or 1)
+    if len(node_lines) < 2000 or procs == 1:
+        parsed = _parse_nodes(node_lines)
+    else:
+        n = max(500, len(node_lines) // (procs * 4))
+        chunks = [node_lines[i:i + n] for i in range(0, len(node_lines), n)]
+        ctx = multiprocessing.get_context('fork')
+        with ctx.Pool(procs) as pool:
+            parsed = [x for part in pool.map(_parse_nodes, chunks) for x in part]
+    for nid, st, is_init in parsed:
+        nodes[nid] = st
+        if is_init:
+            inits.append(nid)
     return nodes, edges, inits
 
 
